@@ -37,7 +37,7 @@ Section C.
   Proof.
     induction h as [|c t IH]; intros d m; simpl.
     - rewrite app_nil_r; reflexivity.
-    - rewrite IH. unfold step at 2. rewrite sd_get_fold, <- app_assoc. reflexivity.
+    - rewrite IH. unfold step. rewrite sd_get_fold, <- app_assoc. reflexivity.
   Qed.
 
   Theorem collation_dict (h : list (mcmd V)) m : sd_get V (run_cmds V h) m = outcomes_of V h m.
